@@ -803,7 +803,8 @@ FormatterToHTML::writeAttrString(
                 {
                     // UTF-16 surrogate
 
-                    XalanDOMChar    next = 0;
+                    // (the scalar value does not fit into a UTF-16 code unit)
+                    XalanUnicodeChar    next = 0;
 
                     if (i + 1 >= theStringLength) 
                     {
@@ -815,19 +816,16 @@ FormatterToHTML::writeAttrString(
 
                         if (!(0xdc00 <= next && next < 0xe000))
                         {
-                            throwInvalidUTF16SurrogateException(ch, next, getMemoryManager());
+                            throwInvalidUTF16SurrogateException(
+                                ch,
+                                static_cast<XalanDOMChar>(next),
+                                getMemoryManager());
                         }
 
-                        next = XalanDOMChar(((ch - 0xd800) << 10) + next -0xdc00 + 0x00010000);
+                        next = ((ch - 0xd800) << 10) + next - 0xdc00 + 0x00010000;
                     }
 
-                    accumContent(XalanUnicode::charAmpersand);
-                    accumContent(XalanUnicode::charNumberSign);
-
-                    accumContent(NumberToDOMString(next, m_stringBuffer));
-                    m_stringBuffer.clear();
-
-                    accumContent(XalanUnicode::charSemicolon);
+                    writeNumberedEntityReference(next);
                 }
                 else
                 {
